@@ -275,3 +275,14 @@ func resolveSpilled(ret *ssa.Return, v ssa.Value) ssa.Value {
 	}
 	return v
 }
+
+// ResolveRet returns result #idx of a return, seeing through defer-spilled named results.
+func ResolveRet(ret *ssa.Return, idx int) ssa.Value {
+	if idx < 0 {
+		idx = len(ret.Results) + idx
+	}
+	if idx < 0 || idx >= len(ret.Results) {
+		return nil
+	}
+	return resolveSpilled(ret, ret.Results[idx])
+}
